@@ -172,6 +172,18 @@ func decode8BitAsciiLatin1(b []byte, c int) (string, int, error) {
 		return "", 0, fmt.Errorf("expected %v bytes, got %v", c, len(b))
 	}
 
+	// bytes above 0x7f are Latin-1 code points, which UTF-8 encodes in two
+	// bytes; converting the raw bytes would produce an invalid string
+	for _, v := range b[:c] {
+		if v > 0x7f {
+			runes := make([]rune, c)
+			for i, v := range b[:c] {
+				runes[i] = rune(v)
+			}
+			return string(runes), c, nil
+		}
+	}
+
 	// can convert straight into a string as the encoding's range is
 	// identical to UTF-8
 	return string(b[:c]), c, nil
